@@ -343,6 +343,8 @@ def c_dask(rng):
             if not all(nan_eq(a, b) for a, b in zip(g.area.compute().values, df.geometry.area.values)):
                 out.append(V(f'dask.area/{tag}', '', recipe))
             bx = gen.box(rng)
+            if rng.random() < 0.35:
+                bx = (-100.0, -100.0, 100.0, 100.0)      # every partition lies inside the box: missing / empty rows stay out
             eff = oracle.norm_box(bx)
             exp = [i for i, el in enumerate(cs.view) if oracle.intersects_bounds(kind, el, eff)]
             got = ddf.cx[min(bx[0], bx[2]):max(bx[0], bx[2]), min(bx[1], bx[3]):max(bx[1], bx[3])].compute()
